@@ -180,3 +180,15 @@ where
         write!(f, "lorawan_device::Event::{event}")
     }
 }
+
+#[cfg(lora_rs_verif)]
+impl<R, RNG, const N: usize, const D: usize> Device<R, RNG, N, D>
+where
+    R: PhyRxTx + Timings,
+    RNG: RngCore,
+{
+    /// Verification hook: read-only snapshot of the MAC state.
+    pub fn verif_snapshot(&self) -> crate::mac::verif::Snapshot {
+        self.shared.mac.verif_snapshot()
+    }
+}
